@@ -9,24 +9,25 @@
 # Results are appended to /verif/build/seed_eval/<ID>.log and a one-line summary is printed.
 id=$1; shift
 checks="$@"; [ -z "$checks" ] && checks=$id
-wt=/tmp/seed-$id
+pfx=${SEED_PREFIX:-seed}
+wt=/tmp/$pfx-$id
 out=/verif/build/seed_eval; mkdir -p $out
-log=$out/$id.log; : > $log
+log=$out/$pfx-$id.log; : > $log
 export GOFLAGS=-mod=mod GOPROXY=off GOSUMDB=off GOTOOLCHAIN=local
 cd $wt || exit 2
 [ -f SEED/patch.diff ] || { echo "$id: no SEED/patch.diff"; exit 2; }
 # keep deliverables aside
-rm -rf /tmp/seedkeep-$id; cp -r SEED /tmp/seedkeep-$id
+rm -rf /tmp/${pfx}keep-$id; cp -r SEED /tmp/${pfx}keep-$id
 git checkout -q -- . ; git clean -fdq -e SEED -e TASK.md
-demo_files=$(ls /tmp/seedkeep-$id/demo/*.go 2>/dev/null)
-runcmd=$(grep -m1 -E '^\s*(go test|go run)' /tmp/seedkeep-$id/demo/RUN.txt | sed 's/^\s*//')
+demo_files=$(ls /tmp/${pfx}keep-$id/demo/*.go 2>/dev/null)
+runcmd=$(grep -m1 -oE '(go test|go run) [^`]*' /tmp/${pfx}keep-$id/demo/RUN.txt | sed 's/[[:space:]]*$//')
 pkgdir=$(echo "$runcmd" | grep -oE '(^| )\./[a-zA-Z0-9_./-]+' | tail -1 | tr -d ' ' | sed 's|/\.\.\.$||; s|/$||')
 echo "RUN: $runcmd  PKGDIR: $pkgdir" >> $log
 place_demo() {
   for f in $demo_files; do
     b=$(basename $f)
     # explicit destination named in RUN.txt (a path ending in the file name that is not under SEED/), else the package of the run command
-    d=$(grep -oE "[a-zA-Z0-9_./-]*/$b" /tmp/seedkeep-$id/demo/RUN.txt | grep -v '^SEED/' | grep -v '/demo/' | grep -v '^demo/' | sed "s|^/tmp/seed-$id/||" | head -1)
+    d=$(grep -oE "[a-zA-Z0-9_./-]*/$b" /tmp/${pfx}keep-$id/demo/RUN.txt | grep -v '^SEED/' | grep -v '/demo/' | grep -v '^demo/' | sed "s|^/tmp/$pfx-$id/||" | head -1)
     [ -z "$d" ] && d=$pkgdir/$b
     d=${d#./}
     mkdir -p $(dirname $d); cp $f $d; echo "placed $d" >> $log
@@ -45,7 +46,7 @@ echo "== unit tests of touched packages: $pkgs" >> $log
 timeout 1500 go test -vet=off -count=1 $pkgs >> $log 2>&1; rc_unit=$?
 res=""
 for c in $checks; do
-  ( cd /verif && VP_REPO=$wt timeout 3000 ./check run $c ) > $out/$id.check-$c.log 2>&1; rc=$?
+  ( cd /verif && VP_REPO=$wt timeout 3000 ./check run $c ) > $out/$pfx-$id.check-$c.log 2>&1; rc=$?
   res="$res $c:rc=$rc"
 done
 echo "$id demo_without=$rc_without demo_with=$rc_with unit=$rc_unit checks:$res" | tee -a $log
